@@ -694,6 +694,11 @@ func c10Snapshot(r *core.Run, p *core.Program) {
 	for _, n := range []string{"SerializeC", "SerializeU"} {
 		c10TwoPass(r, p, n)
 	}
+	// the two passes of SerializeC see the same scratch data (shared with C11)
+	compScratchHeld(r, p, "R-C10-size")
+	snapshotCountFromMaps(r, p, "R-C10-snapshot")
+	// the recognisers behind the special script forms accept exactly one frame each (shared with C17)
+	c17Recognisers(r, p, "R-C10-special")
 	r.Check(flag(sv) && flag(ld), rule, "flag-bit", p.Pos(sv.Pos()), "bit 63 of the first word announces compressed records on both sides", "the compressed-records bit (1<<63 of the first word) is not set by save and tested by the loader alike")
 	// the flag written follows db.ComprssedUTXO
 	okF := false
